@@ -1093,16 +1093,17 @@ func (e *Exec) conv(fr *frame, instr ssa.Instruction, dst, src types.Type, x Val
 				b, _ := bytesOf(xv)
 				return StrV{b}
 			}
-			// []rune -> string: concrete only
-			var sb strings.Builder
+			// []rune -> string: UTF-8 encode every rune (symbolic runes fork on the size class)
+			var out []*Term
 			for _, r := range xv.data {
 				t := r.(*Term)
-				if !t.IsConst() {
-					panic(unsupported("symbolic []rune -> string"))
+				if t.IsConst() {
+					out = append(out, e.strConst(string(rune(t.SVal()))).b...)
+					continue
 				}
-				sb.WriteRune(rune(t.SVal()))
+				out = append(out, e.runeToString(t, el).(StrV).b...)
 			}
-			return e.strConst(sb.String())
+			return StrV{out}
 		case *Term:
 			// integer (rune) -> string
 			return e.runeToString(xv, src)
